@@ -8,6 +8,7 @@ import (
 	"path/filepath"
 	"sort"
 	"strconv"
+	"strings"
 	"time"
 
 	"verif/internal/chk"
@@ -112,7 +113,24 @@ func sourcesOf(s *spec.Spec) map[string][]byte {
 }
 
 func evalRef(s *spec.Spec, behav vproto.Behaviours) *ref.Result {
-	return ref.Eval(&ref.Input{Spec: s, Files: sourcesOf(s), Behav: behav})
+	r := ref.Eval(&ref.Input{Spec: s, Files: sourcesOf(s), Behav: behav})
+	if r.Err == "" {
+		// generated names grow along chains; a path segment must stay below NAME_MAX (255) - also with
+		// the ".audit.json" suffix - and the temp-dir encoded form must too
+		for _, t := range r.Tasks {
+			for _, p := range t.Outs {
+				for _, seg := range strings.Split(p, "/") {
+					if len(seg) > 230 {
+						r.Err = "generated output name longer than a path segment may be"
+					}
+				}
+				if len(p) > 900 {
+					r.Err = "generated output path too long"
+				}
+			}
+		}
+	}
+	return r
 }
 
 func preSet(s *spec.Spec) map[string]bool {
